@@ -84,17 +84,29 @@ fn main() {
             Some(J::Array(a)) => a.iter().map(|x| x.as_str().unwrap().to_string()).collect(),
             _ => vec![j["src"].as_str().unwrap_or("").to_string()],
         };
+        let early_lines = j["early_lines"].as_bool().unwrap_or(false);
         let seed = j["seed"].as_u64().unwrap_or(1);
         let mut rng = Rng::new(seed);
         let mut outcomes = Vec::new();
         if record {
             sim.trace.push(json!({"k": "init", "id": j["id"], "nw": nw, "meta": j["meta"]}));
         }
+        let mut replay_at = 0usize;
         for (li, src) in lines.iter().enumerate() {
             if sim.submit(src) {
-                if record && li > 0 {
-                    sim.trace.push(json!({"k": "line", "n": li + 1}));
+                if li > 0 {
+                    sim.schedule.push(qharness::sim::Step::Line);
                 }
+                if record && li > 0 {
+                    // (no JSON null: TLC cannot read it) scripted sessions carry the line's entry script
+                    match j["meta"]["lines"][li].as_u64() {
+                        Some(e) => sim.trace.push(json!({"k": "line", "n": li + 1, "entry": e})),
+                        None => sim.trace.push(json!({"k": "line", "n": li + 1})),
+                    }
+                }
+                // a session line that is not the last one: the host may submit the next line as soon
+                // as this line's result has reached it (other processes may still be running)
+                sim.stop_on_outcome = early_lines && li + 1 < lines.len();
                 match j["driver"].as_str().unwrap_or("default") {
                     "random" => sim.run_random(&mut rng, &quanta, max_steps),
                     "pct" => {
@@ -104,15 +116,27 @@ fn main() {
                         sim.run_default(quanta[0], max_steps);
                     }
                     "replay" => {
+                        // the stored schedule, up to the marker of the next line's submission
+                        let mut hit_line = false;
                         if let Some(J::Array(s)) = j.get("schedule") {
-                            for st in s {
-                                if let Some(st) = step_from_json(st) {
-                                    sim.apply(&st);
+                            while replay_at < s.len() {
+                                let st = step_from_json(&s[replay_at]);
+                                replay_at += 1;
+                                match st {
+                                    Some(qharness::sim::Step::Line) => {
+                                        hit_line = true;
+                                        break;
+                                    }
+                                    Some(st) => sim.apply(&st),
+                                    None => {}
                                 }
                             }
                         }
-                        // finish fairly so that the end state is comparable
-                        sim.run_default(quanta[0], max_steps);
+                        if !hit_line {
+                            // finish fairly so that the end state is comparable
+                            sim.stop_on_outcome = false;
+                            sim.run_default(quanta[0], max_steps);
+                        }
                     }
                     _ => sim.run_default(quanta[0], max_steps),
                 }
